@@ -162,6 +162,8 @@ def _r08a_envs(chk, repo) -> Dict[int, ast.Call]:
                 if fq is not None and fq.split(".")[-1] == "Template":
                     chk.fail("R08a", node, "a bare jinja2.Template is built: it renders with a private default environment (keep_trailing_newline=False), not the templater's",
                              detail="no bare jinja2.Template")
+                if isinstance(node.func, ast.Attribute) and node.func.attr in ("update", "setdefault", "__setitem__") and isinstance(node.func.value, ast.Attribute) and node.func.value.attr == "policies":
+                    chk.fail("R08a", node, f"a policy of the Jinja environment is changed ({short(node, 60)})", detail="environment policies left at Jinja's defaults")
                 if isinstance(node.func, ast.Attribute) and node.func.attr == "overlay":
                     bad = [k.arg for k in node.keywords if k.arg in LEXER_OPTIONS or k.arg == "keep_trailing_newline"]
                     if bad:
@@ -169,6 +171,13 @@ def _r08a_envs(chk, repo) -> Dict[int, ast.Call]:
             elif isinstance(node, (ast.Assign, ast.AugAssign, ast.AnnAssign)):
                 tgts = node.targets if isinstance(node, ast.Assign) else [node.target]
                 for t in tgts:
+                    # env.policies[...] = ... / env.policies = ...: Jinja's policies change what filters render
+                    # (tojson key order, urlize, truncate leeway) without any change to the template
+                    pol = t.value if isinstance(t, ast.Subscript) else t
+                    if isinstance(pol, ast.Attribute) and pol.attr == "policies" and "jinja" in m.text:
+                        chk.count("R08a.policy_stores")
+                        chk.fail("R08a", node, f"a policy of the Jinja environment is changed ({short(node, 60)}): filters such as tojson then render differently from Jinja's own "
+                                 "render of the same template and context", detail="environment policies left at Jinja's defaults")
                     if isinstance(t, ast.Attribute) and (t.attr in LEXER_OPTIONS or t.attr == "keep_trailing_newline"):
                         chk.count("R08a.option_attribute_stores")
                         chk.fail("R08a", node, f"'{t.attr}' is assigned on an object after construction ({short(node, 60)}): the environment that renders no longer has the options the fast path "
